@@ -17,7 +17,10 @@ ASSUMPTIONS = [
     "to 2 retries), thread_limit 1-2, every spawned worker is a logical thread",
     "two regimes for the workers' idle timeout: long (a parked worker retires only once every dispatcher is done) and "
     "short (it may retire at any moment)",
-    "outside: panic transport of jobs (panic.rs), the driver-side completion channel, limits > 2, > 2 dispatchers",
+    "panicking jobs: each dispatcher's first job may panic (a job handed to the pool directly is not wrapped in catch_unwind): "
+    "the panic unwinds through the worker's MIR cleanup blocks (drop of its guard) and kills that worker thread; a submission "
+    "may be rejected as 'all threads are busy' only while live workers + reserved slots >= thread_limit",
+    "outside: how a panic travels back to the submitter (panic.rs, the driver's completion channel), limits > 2, > 2 dispatchers",
 ]
 
 
@@ -38,13 +41,14 @@ class Plan:
         self.mod = c17_pool
         Plan.summaries = c17_pool.SUMMARY_TEXT
 
-    def _check(self, limit, plan, short):
+    def _check(self, limit, plan, short, panics=False):
         from explore import Stats, Failure
-        name = "pool.limit%d.jobs%s.%s" % (limit, "+".join(map(str, plan)), "short-timeout" if short else "long-timeout")
+        name = "pool.limit%d.jobs%s.%s%s" % (limit, "+".join(map(str, plan)), "short-timeout" if short else "long-timeout",
+                                             ".first-job-panics" if panics else "")
 
         def body(sd):
             t0 = time.time()
-            n, steps, q, bad = self.mod.explore_schedules(self.pool, limit, plan, seed=sd, short_timeouts=short)
+            n, steps, q, bad = self.mod.explore_schedules(self.pool, limit, plan, seed=sd, short_timeouts=short, panics=panics)
             st = Stats()
             st.paths, st.queries, st.obligations, st.discharged = n, steps + q, n, n - (1 if bad else 0)
             st.solver_s = time.time() - t0
@@ -57,7 +61,8 @@ class Plan:
     def checks(self, tier):
         cs = [self._check(1, [1], False), self._check(1, [2], False), self._check(1, [3], False),
               self._check(1, [1, 1], False), self._check(2, [2], False),
-              self._check(1, [1], True), self._check(1, [2], True), self._check(1, [1, 1], True)]
+              self._check(1, [1], True), self._check(1, [2], True), self._check(1, [1, 1], True),
+              self._check(1, [2], False, True), self._check(1, [1, 1], False, True)]
         if tier == "thorough":
             cs += [self._check(2, [1, 1], False), self._check(2, [2], True), self._check(2, [1, 1], True)]
         return cs
